@@ -264,7 +264,18 @@ def canon(x, depth=0):
 
 
 def boc_flags(k):
-    return bool(k & 4), bool(k & 2), bool(k & 1)      # has_idx, hash_crc32, has_cache_bits
+    # has_idx, hash_crc32, has_cache_bits, flags (the 2-bit header field; k >= 8 selects a non-zero value)
+    return bool(k & 4), bool(k & 2), bool(k & 1), (k >> 3) & 3
+
+
+def boc_header_flags(boc):
+    """the option number k (as understood by boc_flags) that the header of a generic-magic BoC declares"""
+    return ((boc[4] >> 5) & 7) | (((boc[4] >> 3) & 3) << 3)
+
+
+def rand_boc_flags(rng, exclude=None):
+    ks = [k for k in list(range(8)) * 3 + list(range(8, 32)) if k != exclude]
+    return rng.choice(ks)
 
 
 def apply_call(rec, cells):
